@@ -40,6 +40,9 @@ VERSIONS = {"C03": ["30", "31"], "C04": ["40"], "C05": ["20"], "C15": ["30", "31
 ALL_VERSIONS = ["20", "30", "31", "40"]
 
 # every stream also validates the model (DIFF lines); the float stream validates Base/F64 for the score properties
+# thorough tier only: exhaustive walks of the real code (v2.0: all 139,968,000 objects against the factored composition of the
+# code's own representatives; deviating objects are judged against the Spec)
+THOROUGH_STREAMS = {"C05": ["sweep20"], "C11": ["sweep20"]}
 EXTRA_STREAMS = {"C03": ["float"], "C04": ["float"], "C05": ["float"], "C11": ["float"], "C15": ["float"]}
 
 NOT_CLAIMED = {}
